@@ -2,6 +2,7 @@ package main
 
 import (
 	"fmt"
+	"go/constant"
 	"go/token"
 	"go/types"
 	"regexp"
@@ -2121,14 +2122,26 @@ func c03PrimKey(f *ssa.Function) string {
 
 // c03OpenEffects: what an OpenFile call does to its path, from its flag
 // argument. Exclusive creation never touches an existing file.
-func c03OpenEffects(pathArg int, flag ssa.Value, via string) []c03Effect {
-	const (
-		oWRONLY = 0x1
-		oRDWR   = 0x2
-		oCREATE = 0x40
-		oEXCL   = 0x80
-		oTRUNC  = 0x200
-	)
+func c03OpenEffects(prog *ssa.Program, pathArg int, flag ssa.Value, via string) []c03Effect {
+	// The flag values are those of the build configuration being analysed
+	// (O_CREATE/O_EXCL/O_TRUNC differ between linux, darwin and windows), so
+	// they are read from the loaded os package, never hard-coded.
+	osFlag := func(name string) int64 {
+		op := prog.ImportedPackage("os")
+		if op == nil {
+			brokenf("anchor unresolved: package os is not loaded")
+		}
+		c, _ := op.Pkg.Scope().Lookup(name).(*types.Const)
+		if c == nil {
+			brokenf("anchor unresolved: os.%s is not a constant", name)
+		}
+		v, ok := constant.Int64Val(c.Val())
+		if !ok {
+			brokenf("anchor unresolved: os.%s has no int64 value", name)
+		}
+		return v
+	}
+	oWRONLY, oRDWR, oCREATE, oEXCL, oTRUNC := osFlag("O_WRONLY"), osFlag("O_RDWR"), osFlag("O_CREATE"), osFlag("O_EXCL"), osFlag("O_TRUNC")
 	fl, ok := ConstInt(flag)
 	if !ok {
 		return []c03Effect{{pathArg, c03KWriteOpen, via + "(non-constant flags)"}}
@@ -2237,9 +2250,9 @@ func c03GetDestroyModel(p *Program) *c03DestroyModel {
 			}
 			switch {
 			case funcIs(f, "os", "", "OpenFile") && len(c.Args()) == 3:
-				effs = c03OpenEffects(0, c.Args()[1], "os.OpenFile")
+				effs = c03OpenEffects(f.Prog, 0, c.Args()[1], "os.OpenFile")
 			case funcIs(f, c03Sftp, "Client", "OpenFile") && len(c.Args()) == 3:
-				effs = c03OpenEffects(1, c.Args()[2], "sftp.Client.OpenFile")
+				effs = c03OpenEffects(f.Prog, 1, c.Args()[2], "sftp.Client.OpenFile")
 			}
 			if len(effs) > 0 {
 				queue = append(queue, work{c, effs})
